@@ -41,7 +41,7 @@ META = {
     'decided': ['D1 ownership of the export table; answers cached by the call '
                 'handler are reset wholesale whenever the table changes',
                 'D2 one announcement per export / unexport',
-                'D3 descendants are selected hierarchically; both reporters take the properties of every interface from getAllProperties, which leaves out a readable property only if it was collected already (C17.D1/D4 re-reported)',
+                'D3 descendants are selected hierarchically; both reporters take the properties of every interface from getAllProperties, which leaves out a readable property only if it was collected already (C17.D1/D4 re-reported); loops over the export table that call into exported objects iterate a snapshot',
                 'D4 immediate children (each listed once: de-duplicated '
                 'against the whole list) / no-such-path'],
     'undecided': ['exactness over histories of export and unexport'],
